@@ -465,9 +465,18 @@ func c12Router(r *lp.Run, rng *lp.Rand) {
 				// rule and misses in every spelling: route semantics, decided under C05)
 				if n > 0 && !strings.HasPrefix(fmt.Sprint(res[0]), "F:miss") {
 					pnames := tmplParamRe.FindAllStringSubmatch(rt.tmpl, -1)
-					fields := make([]string, n)
+					byName := map[string]string{}
 					for j := range vals {
-						fields[j] = strings.ToUpper(pnames[j][1][:1]) + pnames[j][1][1:] + "=" + fmt.Sprintf("%q", vals[j])
+						byName[pnames[j][1]] = vals[j]
+					}
+					// the handler's struct has its fields in declaration order (not necessarily the template's)
+					var fields []string
+					for _, oi := range pkg.Ops {
+						if oi.Method == rt.method && oi.Path == rt.tmpl {
+							for _, pi := range oi.Params {
+								fields = append(fields, pi.Field+"="+fmt.Sprintf("%q", byName[pi.Name]))
+							}
+						}
 					}
 					wantArgs := " " + gcHexArgs(vals) + " S:"
 					wantParams := "{" + strings.Join(fields, ",") + "}"
